@@ -80,6 +80,99 @@ def deep_sources(F, fn, du, op, self_local=1, max_nodes=400, ops_out=None):
     return fields, finds, crossed
 
 
+_WRAPPERS = ("std::result::Result", "std::ops::ControlFlow", "std::option::Option")
+_THROUGH = ("std::ops::Try::branch", "std::convert::From::from", "std::convert::Into::into")
+
+
+def deep_sources_fs(fn, du, op, self_local=1, max_nodes=600):
+    """`deep_sources` with tuple components kept apart: which first-level fields of self reach `op`, where a value that
+    travelled inside a tuple (`let (a, b) = map_pair(&self.x, &self.y, f)?`, the helper inlined) is followed into the component
+    it was taken from only.  Wrappers of the `?` protocol (Ok / Continue / Some and their `.0`) are looked through.  Anything
+    else (struct aggregates, calls, arithmetic) is followed into all of its operands, as `deep_sources` does."""
+    fields = set()
+    seen = set()
+
+    def split(pl, pend):
+        """(local, pending selections) for reading `pl` and then applying `pend`"""
+        sel = []
+        for q in pl["p"]:
+            if q[0] == "dc" and q[1] in ("Break", "Err"):
+                return None     # the error residual of `?`: carries no component of the Ok value
+            if q[0] in ("d", "dc"):
+                continue
+            if q[0] == "f" and len(q) > 2 and q[2] == "tuple":
+                sel.append(str(q[1]))
+            elif q[0] == "f" and len(q) > 2 and str(q[2]) in _WRAPPERS:
+                continue
+            elif q[0] == "f":
+                sel.append("#" + str(q[1]))
+            else:
+                sel.append("?")
+        return pl["l"], tuple(sel) + tuple(pend)
+    st = []
+    pl0 = mir.op_place(op) if "l" not in op else op
+    if pl0 is None:
+        return fields
+    st.append(split(pl0, ()))
+    n = 0
+    while st and n < max_nodes:
+        n += 1
+        nd = st.pop()
+        if nd is None:
+            continue
+        local, pend = nd
+        if (local, pend) in seen:
+            continue
+        seen.add((local, pend))
+        if local == self_local:
+            nm = next((x[1:] for x in pend if x.startswith("#")), None)
+            fields.add(nm if nm is not None else "<self>")
+            continue
+        for d in du.defs.get(local, []) + du.partial.get(local, []):
+            partial = d in du.partial.get(local, [])
+            keep = () if partial else pend
+            if d[0] == "call":
+                t = d[3]
+                if (t.get("callee") or "") == "std::ops::FromResidual::from_residual":
+                    continue    # the early return of `?`: an error value
+                through = (t.get("callee") or "") in _THROUGH and len(t["args"]) == 1
+                for a in t["args"]:
+                    apl = mir.op_place(a)
+                    if apl is not None:
+                        st.append(split(apl, keep if through else ()))
+                continue
+            rv = d[3]["rv"]
+            k = rv["k"]
+            if k in ("use", "cast", "repeat"):
+                apl = mir.op_place(rv["op"])
+                if apl is not None:
+                    st.append(split(apl, keep))
+            elif k in ("ref", "rawptr", "discr"):
+                st.append(split(rv["pl"], keep))
+            elif k == "agg":
+                ops = rv["ops"]
+                if "tuple" in rv and keep and keep[0].isdigit() and int(keep[0]) < len(ops):
+                    ops, keep2 = [ops[int(keep[0])]], keep[1:]
+                elif (rv.get("adt") or "") in _WRAPPERS and len(ops) == 1:
+                    keep2 = keep
+                else:
+                    keep2 = ()
+                for o in ops:
+                    apl = mir.op_place(o)
+                    if apl is not None:
+                        st.append(split(apl, keep2))
+            elif k == "binop":
+                for o in (rv["a"], rv["b"]):
+                    apl = mir.op_place(o)
+                    if apl is not None:
+                        st.append(split(apl, ()))
+            elif k == "unop":
+                apl = mir.op_place(rv["a"])
+                if apl is not None:
+                    st.append(split(apl, ()))
+    return fields
+
+
 def closure_captures(F, fn, du, closure_path):
     """operands captured by a closure aggregate in fn"""
     for bi, si, s in mir.stmts(fn):
